@@ -114,6 +114,17 @@ def simulate(b: Built, vals: list[dict]) -> list[Obs]:
     sigs += [r.wa for r in sites]
     sigs += [(r.res if r.res is not None else C(0, 0)) for r in sites]
     widths = [len(x) for x in sigs]
+    # zero-argument methods guarded by an input signal: the guard's value travels in the argument slot
+    mstmts = _method_stmts(b.design)
+    guard_of_site: dict = {}
+    for k, r in enumerate(sites):
+        try:
+            st = mstmts.get(b.name_of.get(b.body_id.get(id(r.method_obj._body))), {})
+        except Exception:  # noqa: BLE001 - undefined method etc.: no guard
+            st = {}
+        val = st.get("validate")
+        if val and val[0] in ("sig", "nsig"):
+            guard_of_site[k] = val[1]
     allobs = Signal(max(sum(widths), 1), name="obsbus")  # a real signal: read by one compiled assignment
     m.d.comb += allobs.eq(Cat(*sigs))
     sim = Simulator(m)
@@ -155,7 +166,7 @@ def simulate(b: Built, vals: list[dict]) -> list[Obs]:
                     din=dict(zip(mids, din)),
                     dout=dict(zip(mids, dout)),
                     en=take(nsites),
-                    arg=take(nsites),
+                    arg=[(v.get(guard_of_site[k], 0) if k in guard_of_site else a) for k, a in enumerate(take(nsites))],
                     w=take(nsites),
                     wa=take(nsites),
                     res=take(nsites),
